@@ -18,6 +18,7 @@ import tempfile
 
 import common
 from common import run_check
+import vmodel
 import vprogs
 import vrun
 
@@ -75,6 +76,31 @@ def check_program(prog, root):
             elif res[1] not in ("UndeclaredDependencyError", "MementoException"):
                 fails.append(dict(clause="declared-call-allowed", fn=n, got=res[:3]))
     return fails, obs
+
+
+def model_check(vm, prog, obs):
+    """correspondence with the Lean model: dependency reports of every memento function; what `callAllowed` says about
+    each hidden call. Returns a list of disagreements (stream, detail)."""
+    diffs = []
+    vm.load(prog)
+    for n, d in obs.items():
+        md = vm.deps(n)
+        for k in ("trans", "direct"):
+            if md[k] != d[k]:
+                diffs.append(("deps-" + k, dict(fn=n, model=md[k], real=d[k])))
+        if md["edges"] != sorted(d["edges"]):
+            diffs.append(("deps-edges", dict(fn=n, model=md["edges"], real=sorted(d["edges"]))))
+    for n, d in prog["defs"].items():
+        if d["kind"] != "memento":
+            continue
+        for t, form in d["refs"]:
+            if form == "hidden" and t in prog["defs"]:
+                want = (not hidden_undeclared(prog, n)) or (t in (vprogs.reach_memento(prog, n) | {n}))
+                if d["explicit"]:
+                    want = True
+                if vm.allowed(n, t) != want:
+                    diffs.append(("call-allowed", dict(caller=n, callee=t, model=vm.allowed(n, t), expected=want)))
+    return diffs
 
 
 FNARG_SRC = '''from twosigma.memento import memento_function
@@ -208,8 +234,12 @@ def main(chk, replay=None):
         finally:
             shutil.rmtree(root, ignore_errors=True)
 
+    vm = vmodel.VModel()
     with concurrent.futures.ThreadPoolExecutor(max_workers=14) as ex:
         for src, prog, (fails, obs) in ex.map(work, progs):
+            for stream, detail in model_check(vm, prog, obs):
+                chk.correspondence_break("version-model:" + stream, dict(detail=detail, program=prog))
+            chk.count("model-compared-functions", len(obs))
             nrefs = sum(len(d.get("refs", [])) for d in prog["defs"].values())
             chk.case(prog, nontrivial=nrefs > 0, sample=dict(source=src, defs={k: v.get("refs") for k, v in prog["defs"].items()}, observed=obs))
             chk.count("program:" + src)
@@ -220,6 +250,7 @@ def main(chk, replay=None):
                 chk.violation({"what": "dependency closure: %s for %s" % (fails[0]["clause"], fails[0].get("fn")),
                                "class": {"clause": fails[0]["clause"]}, "program": prog, "observed": fails[:3],
                                "source": vprogs.render_modules(prog, "replay")})
+    vm.close()
 
 
 if __name__ == "__main__":
